@@ -180,7 +180,7 @@ Archiver Archiver::CreateRead(std::istream& streamReadPtr, const version_info_t&
     arc.ArchiveUInt16(mversion);
     arc.ArchiveUInt16(version);
 
-    if (mversion != ARCHIVE_VERSION && version != info.version) {
+    if (mversion != ARCHIVE_VERSION || version != info.version) {
         throw ArchiveErrors::WrongVersion(mversion, version, ARCHIVE_VERSION, info.version);
     }
 
